@@ -364,6 +364,24 @@ var fixedQueries = []string{
 	"reduce .[] as $x (0; . + $x) | @base64 \"v\\(.)\" | try error catch .",
 }
 
+// contexts before an ill-formed byte sequence (each is a viable prefix of a
+// program and ends with a blank, so that no ill-formed byte of the context
+// stands directly before the offending one)
+var illPrefixes = []string{
+	"",
+	".a | ",
+	".a | .b , ",
+	".a | .b | [ ",
+	"\"漢字é\" | ",
+	"\"😀 x\" as $s | [ $s , ",
+	"# コメント é\n.a | ",
+	".a | # 漢字\r\n\"ü\" | ",
+	".a |\r  \"日本\" | ",
+	"\"a\xffb\" | ",
+	"# \xfe\xff c\n\"\xc3(\" | ",
+	"\"" + "漢字かな漢字かな漢字かな漢字かな漢字かな漢字かな漢字かな漢字かな" + "\" | .a | ",
+}
+
 func insertLexeme(src string, at int, lex [2]string) queryCase {
 	return queryCase{Src: src[:at] + " " + lex[0] + " " + src[at:], ExpStart: at + 1, ExpToken: lex[1]}
 }
@@ -397,7 +415,10 @@ func genQueryCase(t *rapid.T, modes []string) queryCase {
 	}
 	bounds, _ := scanQuery(src)
 	c := queryCase{ExpStart: -1}
-	switch rapid.SampledFrom([]string{"illegal", "illegal", "illegal", "misplaced", "misplaced", "truncate", "truncate", "delete", "escape", "interp"}).Draw(t, "qfault") {
+	switch rapid.SampledFrom([]string{"illegal", "illegal", "illegal", "misplaced", "misplaced", "truncate", "truncate", "delete", "escape", "interp", "illformed"}).Draw(t, "qfault") {
+	case "illformed":
+		at := bounds[biasedIndex(t, "bound", len(bounds))]
+		c = insertIllFormed(src, at, rapid.SampledFrom(illFormed).Draw(t, "bytes"))
 	case "illegal":
 		at := bounds[biasedIndex(t, "bound", len(bounds))]
 		c = insertLexeme(src, at, rapid.SampledFrom(illegalLexemes).Draw(t, "lexeme"))
@@ -502,7 +523,7 @@ func replayCase(sub string, raw json.RawMessage) string {
 			return m
 		}
 		return checkYAML(c)
-	case "query-lib", "query-cli", "query-exh":
+	case "query-lib", "query-cli", "query-exh", "query-illformed":
 		var c queryCase
 		c.ExpStart = -1
 		if m := un(&c); m != "" {
@@ -736,6 +757,9 @@ func TestC17(t *testing.T) {
 				for _, lex := range illegalLexemes {
 					cases = append(cases, insertLexeme(src, at, lex))
 				}
+				for _, seq := range illFormed {
+					cases = append(cases, insertIllFormed(src, at, seq))
+				}
 			}
 			for ci, c := range cases {
 				idx++
@@ -759,28 +783,53 @@ func TestC17(t *testing.T) {
 					rec.Eval()
 					if m := judgeQuery(c, noteQuery(fmt.Sprintf("qexh/%d/%s/%d/%s", qi, eol, ci, mode), c)); m != "" {
 						complete = false
-						rec.Direct("query-exh", c, "%s", m)
+						rec.Direct("query-exh", c.portable(), "%s", m)
 					}
 				}
 			}
 		}
 	}
-	rec.Exhaustive("query: every truncation and 16 always-illegal lexemes at every lexeme boundary of 3 multi-line programs x LF/CRLF/CR (library; every 7th also through the command)", complete)
+	rec.Exhaustive("query: every truncation, 16 always-illegal lexemes and 12 ill-formed UTF-8 sequences at every lexeme boundary of 3 multi-line programs x LF/CRLF/CR (library; every 7th also through the command)", complete)
+
+	// ill-formed UTF-8 where a token is expected: 12 sequences x 12 contexts
+	// (0..3 ASCII tokens, multi-byte characters and ill-formed bytes in
+	// strings and comments before it, one line and several lines, a line
+	// longer than the excerpt) x 3 continuations x library / <arg> / -f
+	complete = true
+	for pi, prefix := range illPrefixes {
+		for _, seq := range illFormed {
+			for si, suffix := range []string{" | .b", " .b\n| .c", " | \"後\" # 終\r\n| .d"} {
+				for _, mode := range []string{"lib", "arg", "file"} {
+					idx++
+					if !rec.Mine(idx) || tooMany() {
+						continue
+					}
+					c := queryCase{Mode: mode, Src: prefix + seq + suffix, ExpStart: len(prefix), ExpToken: seq[:1]}
+					rec.Eval()
+					if m := judgeQuery(c, noteQuery(fmt.Sprintf("qill/%d/%x/%d/%s", pi, seq, si, mode), c)); m != "" {
+						complete = false
+						rec.Direct("query-illformed", c.portable(), "%s", m)
+					}
+				}
+			}
+		}
+	}
+	rec.Exhaustive("query: 12 ill-formed UTF-8 sequences where a token is expected x 12 contexts x 3 continuations x library / <arg> / -f", complete)
 
 	rec.Rapid(t, "query-lib", rec.Scale(36000, 1500000), func(t *rapid.T) {
 		c := genQueryCase(t, []string{"lib"})
 		rec.Eval()
-		rec.Sample(c)
+		rec.Sample(c.portable())
 		if m := judgeQuery(c, noteQuery("qlib/"+c.Src, c)); m != "" {
-			t.Fatalf("%s", rec.Fail("query-lib", c, "%s", m))
+			t.Fatalf("%s", rec.Fail("query-lib", c.portable(), "%s", m))
 		}
 	})
 	rec.Rapid(t, "query-cli", rec.Scale(4000, 60000), func(t *rapid.T) {
 		c := genQueryCase(t, []string{"arg", "arg", "file", "file", "import", "include", "home"})
 		rec.Eval()
-		rec.Sample(c)
+		rec.Sample(c.portable())
 		if m := judgeQuery(c, noteQuery("qcli/"+c.Mode+"/"+c.Src, c)); m != "" {
-			t.Fatalf("%s", rec.Fail("query-cli", c, "%s", m))
+			t.Fatalf("%s", rec.Fail("query-cli", c.portable(), "%s", m))
 		}
 	})
 }
